@@ -72,9 +72,18 @@ def main(argv=None) -> int:
             from .report import load_known
             known = {(k['rule'], k['function'], k['construct']) for k in load_known() if k.get('status') == 'known'}
             if all(f.key in known for f in ck.findings):
+                from .mutate import run_seeded
                 battery = run_battery(args.prop, prog, baseline=ck)
                 for m in battery['missed']:
                     print(f'BATTERY-MISS property={args.prop} mutant={m}')
+                battery['seeded_changes'] = run_seeded(args.prop, prog, baseline=ck)
+                for m in battery['seeded_changes']['not_reported']:
+                    print(f'SEEDED-MISS property={args.prop} change={m}')
+                from .neutral import run_neutral
+                neu = run_neutral([args.prop], prog)
+                battery['neutral_rewrites'] = {'variants': neu['variants'], 'silent': len(neu['silent']), 'alarms': neu['alarms'], 'skipped': neu['skipped']}
+                for k_, v_ in neu['alarms'].items():
+                    print(f'NEUTRAL-ALARM property={args.prop} rewrite={k_} {v_[0]}')
             else:
                 battery = {'skipped': 'unlisted violation on the real tree'}
         return finish(ck, battery)
